@@ -58,7 +58,7 @@ func c06ExArgs() []c06Arg {
 }
 
 func isStackVal(v any) bool {
-	_, ok := stackage.ConvertStack(v)
+	_, ok := AsStack(v)
 	return ok
 }
 
